@@ -22,9 +22,16 @@ use crate::sink::{Op, PubSpec, next_op_id};
 pub enum Base {
     B1,
     B2,
+    /// B2 with the payload taken out of the message and read by a task that outlives the handler
+    /// (clients: routed through `resource`, i.e. with the library's default control service)
+    B2D,
     B3,
+    /// B3 with the publish-ack callback registered and two non-blocking sends among the senders
+    B3C,
     B4,
     B5,
+    /// an inbound handler in flight while the application's own writes run into back-pressure
+    B6,
 }
 
 #[derive(Debug, Clone, Copy, PartialEq, Eq)]
@@ -110,19 +117,21 @@ fn inbound_steps(base: Base, role: Role) -> Vec<Vec<u8>> {
     let publ = |qos: u8, id: u16, n: usize| R::Publish { dup: false, qos, retain: false, topic: "b/t".into(), pid: (qos > 0).then_some(id), props: vec![], payload: vec![id as u8; n] };
     match base {
         Base::B1 | Base::B5 => vec![enc(&publ(1, 11, 8)), enc(&publ(0, 0, 3)), enc(&publ(1, 12, 20))],
-        Base::B2 => {
+        Base::B6 => vec![enc(&publ(1, 61, 5))],
+        Base::B2 | Base::B2D => {
             let full = enc(&publ(1, 21, 40));
             let cut = full.len() - 25;
             vec![full[..cut].to_vec(), full[cut..cut + 10].to_vec(), full[cut + 10..].to_vec()]
         }
-        Base::B3 => vec![],
+        Base::B3 | Base::B3C => vec![],
         Base::B4 => vec![enc(&publ(1, 41, 5)), enc(&publ(1, 42, 5)), enc(&publ(1, 43, 5)), enc(&publ(1, 44, 5))],
     }
 }
 
 pub fn steps_of(base: Base, role: Role) -> usize {
     match base {
-        Base::B3 => 6,
+        Base::B3 | Base::B3C => 6,
+        Base::B6 => 2,
         _ => inbound_steps(base, role).len(),
     }
 }
@@ -141,9 +150,17 @@ pub async fn run_case(case: &Case) -> Outc {
     if case.base == Base::B4 {
         cfg.write_buf = Some((16, 8));
     }
+    let routed_client = case.base == Base::B2D && !role.is_server();
+    if routed_client {
+        cfg.client_resources = vec!["b/t".into(), "f".into(), "w".into()];
+    }
+    if case.base == Base::B6 {
+        cfg.write_buf = Some((32, 8));
+    }
     // handlers
     match case.base {
         Base::B2 => *app.pub_default.borrow_mut() = PubPlan { read: ReadMode::Chunks, gated: true, outcome: Outcome::Ok },
+        Base::B2D => *app.pub_default.borrow_mut() = PubPlan { read: ReadMode::Detached, gated: true, outcome: Outcome::Ok },
         Base::B4 => *app.pub_default.borrow_mut() = PubPlan { read: ReadMode::Eager, gated: false, outcome: Outcome::Ok },
         _ => *app.pub_default.borrow_mut() = PubPlan { read: ReadMode::Eager, gated: true, outcome: Outcome::Ok },
     }
@@ -164,6 +181,7 @@ pub async fn run_case(case: &Case) -> Outc {
     o.steps_total = total_steps;
 
     // ---- the base script, up to the injection point
+    let mut noblock = 0usize;
     let mut written = 0usize;
     let stop_at_bytes = case.byte_offset;
     'script: for step in 0..total_steps {
@@ -171,7 +189,28 @@ pub async fn run_case(case: &Case) -> Outc {
             break;
         }
         match case.base {
-            Base::B3 => {
+            Base::B6 if step == 1 => {
+                // the peer stops reading and the application writes: back-pressure while the
+                // handler of step 0 is still running
+                c.peer.set_budget(0);
+                for k in 0..8u8 {
+                    let _ = sink.send_qos0(&PubSpec::new("o/bp", vec![k; 10]));
+                }
+            }
+            Base::B3C if step == 0 => {
+                // callback registered, then an awaited send that is in flight when the end comes
+                sink.set_ack_cb(&app);
+                let mut op = Op::new(&app, next_op_id(), "b3c-awaited", sink.send_qos1(&PubSpec::new("o/t", vec![0; 6])));
+                op.start();
+                ops.push(op);
+            }
+            Base::B3C if step == 1 => {
+                c.settle().await;
+                if sink.send_qos1_noblock(&PubSpec::new("o/nb", vec![2; 4])).is_some() {
+                    noblock += 1;
+                }
+            }
+            Base::B3 | Base::B3C => {
                 // 6 steps: four QoS 1 senders (2 fit the window), a ready() waiter, a QoS 2 sender
                 let id = next_op_id();
                 let fut = match step {
@@ -217,7 +256,7 @@ pub async fn run_case(case: &Case) -> Outc {
     let handlers_running_before = app.pubs_running.get();
     o.wr_backpressure = wr_on;
     o.parked_at_cause = ops.iter().filter(|op| !op.is_done()).count();
-    o.reader_waiting = case.base == Base::B2 && handlers_running_before > 0 && app.count(|e| matches!(e, Ev::PubPayload { .. })) == 0;
+    o.reader_waiting = matches!(case.base, Base::B2 | Base::B2D) && handlers_running_before > 0 && app.count(|e| matches!(e, Ev::PubPayload { .. })) == 0;
 
     // ---- the cause
     o.injected = true;
@@ -331,7 +370,9 @@ pub async fn run_case(case: &Case) -> Outc {
     let stops = app.stops();
     o.stop = stops.first().map(|s| s.1.clone());
     let what = format!("{case:?}; wr-backpressure seen: {wr_on}; handlers running at cause: {handlers_running_before}");
-    if stops.len() != 1 {
+    if routed_client {
+        // library's default control service: nothing to observe there
+    } else if stops.len() != 1 {
         o.violations.push((format!("control service received {} Stop notifications", stops.len()), what.clone()));
     } else if let Some(want) = expected_class(case.cause, role) {
         // byte-offset mode cuts a frame: a decode error may legitimately win over the close
@@ -383,9 +424,30 @@ pub async fn run_case(case: &Case) -> Outc {
         if let Ev::PubPayload { bytes, call } = e {
             let streamed = log.iter().any(|(_, e2)| matches!(e2, Ev::PubEnter { call: c2, topic, .. } if c2 == call && topic == "b/t"));
             let sent: usize = 40;
-            if case.base == Base::B2 && streamed && bytes.len() < sent {
+            if matches!(case.base, Base::B2 | Base::B2D) && streamed && bytes.len() < sent {
                 o.violations.push(("payload reader saw a clean end of a truncated payload".into(), format!("call {call}: {} of {sent} bytes — {what}", bytes.len())));
             }
+        }
+    }
+    // a detached reader (it outlives its handler) must have seen the end of the payload or an error
+    if case.base == Base::B2D {
+        for (_, e) in &log {
+            if let Ev::PubEnter { call, topic, .. } = e {
+                if topic != "b/t" {
+                    continue;
+                }
+                let finished = log.iter().any(|(_, e2)| matches!(e2, Ev::PubPayload { call: c2, .. } if c2 == call) || matches!(e2, Ev::PubRead { call: c2, res: Err(_) } if c2 == call));
+                if !finished {
+                    o.violations.push(("payload reader is left waiting for ever after the connection ended".into(), format!("call {call} — {what}")));
+                }
+            }
+        }
+    }
+    // non-blocking sends: exactly one callback each (acknowledged or disconnected)
+    if noblock > 0 {
+        let cbs = log.iter().filter(|(_, e)| matches!(e, Ev::AckCb { .. })).count();
+        if cbs != noblock {
+            o.violations.push((format!("{noblock} non-blocking sends but {cbs} publish-ack callbacks after the connection ended"), what.clone()));
         }
     }
     o.reader_errors = log.iter().filter(|(_, e)| matches!(e, Ev::PubRead { res: Err(_), .. })).count();
@@ -406,7 +468,7 @@ pub async fn run_case(case: &Case) -> Outc {
 pub fn cases(quick: bool) -> Vec<Case> {
     let mut v = Vec::new();
     for role in Role::ALL {
-        for base in [Base::B1, Base::B2, Base::B3, Base::B4, Base::B5] {
+        for base in [Base::B1, Base::B2, Base::B2D, Base::B3, Base::B3C, Base::B4, Base::B5, Base::B6] {
             let n = steps_of(base, role);
             for cause in CAUSES {
                 if cause == Cause::CloseWithReason && !role.is_v5() {
@@ -418,11 +480,11 @@ pub fn cases(quick: bool) -> Vec<Case> {
                         cause,
                         Cause::Garbage | Cause::ProtocolViolation | Cause::ProtoHandlerError | Cause::PeerDisconnect | Cause::PublishHandlerError | Cause::PublishHandlerErrorLast | Cause::ProtoDisconnect
                     );
-                    if base == Base::B2 && (step == 1 || step == 2) && needs_inbound {
+                    if matches!(base, Base::B2 | Base::B2D) && (step == 1 || step == 2) && needs_inbound {
                         continue;
                     }
                     for variant in 0..3u8 {
-                        if variant > 0 && !matches!(base, Base::B1 | Base::B5) {
+                        if variant > 0 && !matches!(base, Base::B1 | Base::B5 | Base::B6) {
                             continue;
                         }
                         v.push(Case { role, base, cause, step, byte_offset: None, variant });
